@@ -96,7 +96,10 @@ def main():
                         killed += 1
                     else:
                         open(os.path.join(COQ, "Gen", f"K_{group}_gen.v"), "w").write(text)
-                        code = subprocess.run(f"timeout 300 make Tie/Tie_{group}.vo", shell=True, cwd=COQ,
+                        # every tie file of the group (one per property for the group `order`); -k: all are tried
+                        ties = sorted({f"Tie/Tie_{group}.vo"} | {f"Tie/{t}.vo" for (g, _p), ts in kernels_defs.TIE_FILES.items()
+                                                                  if g == group for t in ts})
+                        code = subprocess.run(f"timeout 600 make -k {' '.join(ties)}", shell=True, cwd=COQ,
                                               stdout=subprocess.PIPE, stderr=subprocess.STDOUT).returncode
                         if code:
                             verdict = "killed (tie no longer checks)"
